@@ -39,6 +39,10 @@ type c14Task struct {
 }
 
 type c14Case struct {
+	// Warm: inputs parsed one after the other on the shared graphs BEFORE the concurrent
+	// phase (a long-lived, warmed-up grammar; most runs keep the graphs cold so that first
+	// use happens concurrently)
+	Warm        []c14Task   `json:"warm,omitempty"`
 	Graphs      []GraphSpec `json:"graphs"`
 	Tasks       []c14Task   `json:"tasks"`
 	MapSeed     uint64      `json:"map_seed"`
@@ -203,6 +207,18 @@ func (*c14Prop) Gen(r *Rand, pl *Plan) Case {
 			}
 		}
 		c.Tasks = append(c.Tasks, t)
+	}
+	switch r.Intn(5) {
+	case 0:
+		for k := r.Range(1, 3); k > 0; k-- {
+			g := r.Intn(ng)
+			c.Warm = append(c.Warm, c14Task{Graph: g, Input: c.Graphs[g].genInput(r), Eval: r.Bool() && (c.Graphs[g].Kind != "grammar" || c.Graphs[g].Interp)})
+		}
+	case 1:
+		for k := r.Range(20, 60); k > 0; k-- {
+			g := r.Intn(ng)
+			c.Warm = append(c.Warm, c14Task{Graph: g, Input: c.Graphs[g].genInput(r)})
+		}
 	}
 	c.Sched = genSched(r, nt, 3000)
 	if r.Chance(1, 3) {
@@ -392,6 +408,13 @@ func c14Run(c *c14Case, probeSequential bool) Verdict {
 	shared := make([]parsley.Parser, len(c.Graphs))
 	for i := range c.Graphs {
 		shared[i] = c.Graphs[i].construct()
+	}
+	for i := range c.Warm {
+		w := &c.Warm[i]
+		if w.Graph >= 0 && w.Graph < len(shared) {
+			soloObserve(w, shared[w.Graph])
+			v.Probes["warm_up_parses"]++
+		}
 	}
 	before := snapshotRoots()
 	obs := make([]string, n+1)
@@ -701,6 +724,16 @@ func (*c14Prop) Shrink(cc Case) []Case {
 				k.Tasks[i].Input = t.Input[:s] + t.Input[s+l:]
 				out = append(out, k)
 			}
+		}
+	}
+	if len(c.Warm) > 0 {
+		k := clone()
+		k.Warm = nil
+		out = append(out, k)
+		if len(c.Warm) > 1 {
+			k2 := clone()
+			k2.Warm = c.Warm[:len(c.Warm)/2]
+			out = append(out, k2)
 		}
 	}
 	for gi, g := range c.Graphs {
